@@ -17,6 +17,6 @@ sws = (hi if direction == "over" else lo) - {sw}
 block = []
 for _ in range(k):
     res, text, symvals, dt = q.ask(direction, sws, block)
-    print(res, repr(text), round(dt, 2), e2.parse_native([text])[0] if text else "")
+    print(res, repr(text), round(dt, 2), (e2.parse_native([text])[0] if text and "E2_PEST_OVERRIDE" not in os.environ else ""))
     if res != "sat": break
     block.append(symvals)
